@@ -1704,6 +1704,19 @@ class FnTranslator:
                 return self.flush() + self.eig_store(tgt.lv, ('eig', tgt.st, tgt.rows, tgt.cols), ev)
         if k == 'CXXMemberCallExpr':
             me = self.callee_decl(n0)
+            if me.get('kind') == 'MemberExpr' and me.get('name') == 'pretranslate' and self.is_eigen_node(self.inner(me)[0]) \
+                    and 'Transform' in node_type(self.inner(me)[0]) + self.desugar(self.inner(me)[0]):
+                # Eigen::Transform<.., Affine>::pretranslate(t): documented semantics (Transform.h): translation() += t, linear part untouched
+                tgt = self.eig(self.inner(me)[0])
+                tv = self.eig(self.inner(n0)[1])
+                if not (tgt.rows == 4 and tgt.cols == 4 and tv.rows * tv.cols == 3):
+                    self.err(n0, 'pretranslate on a %dx%d transform has no contract here' % (tgt.rows, tgt.cols))
+                tcell = (lambda i: tv.get(i, 0)) if tv.cols == 1 else (lambda i: tv.get(0, i))
+                ev = EigVal(tgt.st, 4, 4, lambda i, j: ('bin', '+', tgt.get(i, 3), tcell(i), tgt.st) if (j == 3 and i < 3) else tgt.get(i, j))
+                self.rule('Eigen::Affine3d pretranslate(t) -> assumed contract: translation += t, linear part unchanged')
+                return self.flush() + self.eig_store(tgt.lv, ('eig', tgt.st, 4, 4), ev)
+        if k == 'CXXMemberCallExpr':
+            me = self.callee_decl(n0)
             if me.get('kind') == 'MemberExpr' and me.get('name') == 'compute' and 'SelfAdjointEigenSolver<' in (node_type(self.inner(me)[0]) + self.desugar(self.inner(me)[0])):
                 # solver.compute(M) for a fixed 2x2 / 3x3 M: the decomposition enters by its ASSUMED contract; eigenvalues() / eigenvectors()
                 # of that solver object are from here on uninterpreted functions eigh<n>_l<i> / eigh<n>_v<i><j> of the coefficients of M
